@@ -3,6 +3,9 @@
  *   c val  <src> <tgt> <value>          mpt_data_converter(src)(&v, tgt, dest) with and without destination
  *   c vval <src> <tgt> <value>          mpt_value_convert({&v, src}, tgt, dest)          "
  *   c consume <src> <tgt> <value>       mpt_iterator_consume(iterator over {&v, src}, tgt, dest)   "
+ *   c argv <src> <tgt> <value>          the value passed through `...` to mpt_process_vararg (mpt_value_argv), read by mpt_iterator_consume
+ *   c fpoint val <src> <v1> [<v2>]      mpt_fpoint_set from an iterator over typed values (consumes 'f' twice)
+ *   c fpoint text <hex> <oracle>        mpt_fpoint_set from mpt_iterator_string(text)
  *   c sweep <src> <tgt> <lo> <hi>       the same as `c val` for every integer lo..hi, summarised
  *   c text <number|string|cint> <tgt> <hex>   mpt_convert_number / mpt_convert_string / mpt_c[u]intN on the C string
  *   c ftext <number|string|cflt> <tgt> <hex>  the same for the floating targets f d e
@@ -15,8 +18,11 @@
 #include <math.h>
 #include <float.h>
 #include <inttypes.h>
+#include <stdarg.h>
 #include "types.h"
 #include "convert.h"
+#include "meta.h"
+#include "values.h"
 
 struct ty { char code; int size, vbytes, sign, flt; };
 static const struct ty TYS[] = {
@@ -144,9 +150,12 @@ static int it_reset(MPT_INTERFACE(iterator) *it) { (void) it; return 0; }
 static const MPT_INTERFACE_VPTR(iterator) it_vptr = { it_get, it_advance, it_reset };
 static MPT_INTERFACE(iterator) it_obj = { &it_vptr };
 
-/* one conversion, mode 0: converter from mpt_data_converter, mode 1: mpt_value_convert, mode 2: mpt_iterator_consume */
+static int do_argv(const struct ty *src, const struct ty *tgt, void *dest);
+
+/* one conversion, mode 3: through a variadic call; mode 0: converter from mpt_data_converter, mode 1: mpt_value_convert, mode 2: mpt_iterator_consume */
 static int do_conv(int mode, const struct ty *src, const struct ty *tgt, void *dest)
 {
+	if (mode == 3) return do_argv(src, tgt, dest);
 	if (mode == 2) {
 		it_value._addr = srcbuf;
 		it_value._type = tcode(src);
@@ -160,6 +169,81 @@ static int do_conv(int mode, const struct ty *src, const struct ty *tgt, void *d
 		MPT_STRUCT(value) val = MPT_VALUE_INIT(tcode(src), srcbuf);
 		return mpt_value_convert(&val, tcode(tgt), dest);
 	}
+}
+
+/* ---- mode 3: the value travels through a variadic call: mpt_process_vararg -> mpt_value_argv -> typed iterator,
+ *      read with mpt_iterator_consume */
+static const struct ty *va_tgt;
+static void *va_dest;
+static int va_proc(void *ctx, MPT_INTERFACE(iterator) *it)
+{
+	(void) ctx;
+	return mpt_iterator_consume(it, tcode(va_tgt), va_dest);
+}
+static int call_vararg(const char *fmt, ...)
+{
+	va_list va;
+	int r;
+	va_start(va, fmt);
+	r = mpt_process_vararg(fmt, va, va_proc, 0);
+	va_end(va);
+	return r;
+}
+static int do_argv(const struct ty *src, const struct ty *tgt, void *dest)
+{
+	char fmt[2] = { src->code, 0 };
+	va_tgt = tgt; va_dest = dest;
+	switch (src->code) {
+	case 'c': case 'b': return call_vararg(fmt, (int) *(int8_t *) srcbuf);
+	case 'y': return call_vararg(fmt, (unsigned int) *(uint8_t *) srcbuf);
+	case 'n': return call_vararg(fmt, (int) *(int16_t *) srcbuf);
+	case 'q': return call_vararg(fmt, (unsigned int) *(uint16_t *) srcbuf);
+	case 'i': return call_vararg(fmt, *(int32_t *) srcbuf);
+	case 'u': return call_vararg(fmt, *(uint32_t *) srcbuf);
+	case 'x': return call_vararg(fmt, *(int64_t *) srcbuf);
+	case 't': return call_vararg(fmt, *(uint64_t *) srcbuf);
+	case 'f': return call_vararg(fmt, (double) *(float *) srcbuf);
+	case 'd': return call_vararg(fmt, *(double *) srcbuf);
+	case 'e': return call_vararg(fmt, *(long double *) srcbuf);
+	default: return MPT_ERROR(BadArgument);
+	}
+}
+
+/* ---- mpt_fpoint_set (mptplot): a consumer of mpt_iterator_consume(it, 'f', ..) */
+static _Alignas(16) unsigned char fp_vals[2][16];
+static int fp_count, fp_pos;
+static MPT_STRUCT(value) fp_value;
+static const struct ty *fp_ty;
+static const MPT_STRUCT(value) *fp_get(MPT_INTERFACE(iterator) *it)
+{
+	(void) it;
+	if (fp_pos >= fp_count) return 0;
+	fp_value._addr = fp_vals[fp_pos];
+	fp_value._type = tcode(fp_ty);
+	return &fp_value;
+}
+static int fp_advance(MPT_INTERFACE(iterator) *it) { (void) it; if (fp_pos >= fp_count) return MPT_ERROR(MissingData); ++fp_pos; return fp_pos < fp_count ? tcode(fp_ty) : 0; }
+static int fp_reset(MPT_INTERFACE(iterator) *it) { (void) it; fp_pos = 0; return fp_count; }
+static const MPT_INTERFACE_VPTR(iterator) fp_it_vptr = { fp_get, fp_advance, fp_reset };
+static MPT_INTERFACE(iterator) fp_it = { &fp_it_vptr };
+static int fp_conv(MPT_INTERFACE(convertable) *c, MPT_TYPE(type) type, void *dest)
+{
+	(void) c;
+	if (type == MPT_ENUM(TypeIteratorPtr)) { if (dest) *(void **) dest = &fp_it; return MPT_ENUM(TypeIteratorPtr); }
+	return MPT_ERROR(BadType);
+}
+static const MPT_INTERFACE_VPTR(convertable) fp_conv_vptr = { fp_conv };
+static MPT_INTERFACE(convertable) fp_src = { &fp_conv_vptr };
+
+static void put_fpoint(int r, const MPT_STRUCT(fpoint) *pt, const MPT_STRUCT(fpoint) *keep)
+{
+	const struct ty *f = ty_of("f");
+	char ox[48], oy[48];
+	int kept = !memcmp(pt, keep, sizeof(*pt));
+	if (r < 0) { printf("R refused | C pt=%s | I ret=%s\n", kept ? "kept" : "changed", drv_errname(r)); return; }
+	memset(dstbuf, 0, DSTLEN); memcpy(dstbuf, &pt->x, 4); out_text(f, ox, sizeof(ox));
+	memset(dstbuf, 0, DSTLEN); memcpy(dstbuf, &pt->y, 4); out_text(f, oy, sizeof(oy));
+	printf("R ok n=%d x=%s y=%s | C pt=set | I ret=%d\n", r, ox, oy, r);
 }
 
 static void op_val(int mode, const struct ty *src, const struct ty *tgt)
@@ -300,11 +384,44 @@ int main(void)
 		drv_split(line);
 		if (drv_nw < 2 || strcmp(drv_w[0], "c")) { puts("bad-op"); continue; }
 		const char *op = drv_w[1];
-		if ((!strcmp(op, "val") || !strcmp(op, "vval") || !strcmp(op, "consume")) && drv_nw == 5) {
+		if ((!strcmp(op, "val") || !strcmp(op, "vval") || !strcmp(op, "consume") || !strcmp(op, "argv")) && drv_nw == 5) {
 			const struct ty *src = ty_of(drv_w[2]), *tgt = ty_of(drv_w[3]);
 			wide iv;
 			if (!src || !tgt || parse_src(src, drv_w[4], &iv)) { puts("bad-op"); continue; }
-			op_val(op[0] == 'c' ? 2 : op[1] == 'v', src, tgt);
+			op_val(op[0] == 'a' ? 3 : op[0] == 'c' ? 2 : op[1] == 'v', src, tgt);
+		}
+		else if (!strcmp(op, "fpoint") && drv_nw >= 4 && !strcmp(drv_w[2], "text") && drv_nw == 5) {
+			/* c fpoint text <hex> <oracle>: one numeral word through mpt_iterator_string */
+			uint8_t *dat; size_t len; int isnull;
+			if (drv_parse_data(drv_w[3], &dat, &len, &isnull) || isnull) { puts("bad-op"); continue; }
+			char *str = malloc(len + 1);
+			memcpy(str, dat, len); str[len] = 0; free(dat);
+			int blank = !len;
+			for (size_t k = 0; k < len; k++) if (!str[k] || str[k] == ' ' || (str[k] >= 9 && str[k] <= 13)) blank = 1;
+			if (blank) { puts("bad-op"); free(str); continue; }      /* one word only */
+			MPT_STRUCT(fpoint) keep = { 12345.5f, -54321.25f }, pt = keep;
+			MPT_INTERFACE(metatype) *mt = mpt_iterator_string(str, 0);
+			if (!mt) { puts("bad-op"); free(str); continue; }
+			errno = ERANGE;
+			int r = mpt_fpoint_set(&pt, (MPT_INTERFACE(convertable) *) mt, 0);
+			mt->_vptr->unref(mt);
+			put_fpoint(r, &pt, &keep);
+			free(str);
+		}
+		else if (!strcmp(op, "fpoint") && (drv_nw == 5 || drv_nw == 6) && !strcmp(drv_w[2], "val")) {
+			/* c fpoint val <src> <v1> [<v2>]: typed values through a two element iterator */
+			const struct ty *src = ty_of(drv_w[3]);
+			wide iv;
+			int bad = !src;
+			fp_count = drv_nw - 4; fp_pos = 0; fp_ty = src;
+			for (int k = 0; !bad && k < fp_count; k++) {
+				if (parse_src(src, drv_w[4 + k], &iv)) bad = 1;
+				else memcpy(fp_vals[k], srcbuf, 16);
+			}
+			if (bad) { puts("bad-op"); continue; }
+			MPT_STRUCT(fpoint) keep = { 12345.5f, -54321.25f }, pt = keep;
+			int r = mpt_fpoint_set(&pt, &fp_src, 0);
+			put_fpoint(r, &pt, &keep);
 		}
 		else if (!strcmp(op, "sweep") && drv_nw == 6) {
 			const struct ty *src = ty_of(drv_w[2]), *tgt = ty_of(drv_w[3]);
